@@ -15,8 +15,9 @@ package enterprise
 //@ func BeginBlocker(ctx, k)
 //@   props C03 C14 C02
 //@   requires ENT_ALL(ent_store) && ENT_BOOKS_WF(ent_store) && BANK_OK(bank_bal) && ENT_LEDGER(ent_store, bank_bal, bytesval(modAddr("enterprise")))
-//@   requires bankCanMint("enterprise") && totalLockedAmt(ent_store) < P200
-//@   requires forall x uint64 :: {ent_store[kAccepted(x)]} acceptedHas(ent_store, x) ==> !bankBlocked(bytesval(addrOf(poGet(ent_store, x).Purchaser))) && bytesval(addrOf(poGet(ent_store, x).Purchaser)) != bytesval(modAddr("enterprise"))
+//@   requires totalLockedAmt(ent_store) < P200
+//@   requires forall x uint64 :: {ent_store[kAccepted(x)]} acceptedHas(ent_store, x) ==> bytesval(addrOf(poGet(ent_store, x).Purchaser)) != bytesval(modAddr("enterprise"))
+//@   nopanic_if bankCanMint("enterprise") && forall x uint64 :: {ent_store[kAccepted(x)]} acceptedHas(ent_store, x) ==> !bankBlocked(bytesval(addrOf(poGet(ent_store, x).Purchaser)))
 //@   requires 0 <= unixSecs(blockTime(ctx)) && unixSecs(blockTime(ctx)) < 2^63
 //@   requires entParams(ent_store).MinAccepts >= 1 && len(splitOn(entParams(ent_store).EntSigners, ",")) >= entParams(ent_store).MinAccepts
 //@   requires forall x uint64 :: {ent_store[kRaised(x)]} raisedHas(ent_store, x) ==> poGet(ent_store, x).RaiseTime <= unixSecs(blockTime(ctx)) && len(poGet(ent_store, x).Decisions) < 2^62
@@ -100,7 +101,7 @@ package enterprise
 //@   loop 3: invariant spentSum(ent_store) == docSpentSum(arr(sps), rangeindex + 1) && lockSum(ent_store) == docLockSum(arr(lus), len(lus))
 
 //@ func (github.com/unification-com/mainchain/x/enterprise/keeper.Keeper).GetEnterpriseAccount(ctx) (r)
-//@   trusted returns the module account object from the account keeper; reads no enterprise state
+//@   props C04 C15
 //@   pure
 //@   ensures r != nil ==> bytesval(acctAddr(r)) == bytesval(modAddr("enterprise"))
 
